@@ -124,8 +124,21 @@ class SimSocket(object):
 
     def connect_ex(self, addr):
         self.sim.sync_point("sock.connect")
-        self.state = "connecting"
         self.addr = addr
+        if self.net.cfg.connect_outcome == "unreachable":
+            # the failure is reported by connect() itself (no route to the peer's network: ENETUNREACH straight
+            # away); checked against the real kernel here: the socket stays unconnected, nothing is pending, and a
+            # later send() raises EPIPE
+            self.state = "refused"
+            self.refused_reported = True
+            self.net.stats["connect_refused"] += 1
+            self.net.stats["connect_unreachable"] = self.net.stats.get("connect_unreachable", 0) + 1
+            self.sim.log("connect.unreachable", self.name)
+            self._kick()
+            if self.net.cfg.personality == "windows":
+                return 10051
+            return errno.ENETUNREACH
+        self.state = "connecting"
         self.net.start_connect(self, addr)
         return errno.EINPROGRESS
 
